@@ -26,6 +26,9 @@ RULE = (
     "keyword, generated without it. non-trivial = injection depth >=1 or cycle length >=2; distinct = "
     "canon(case)"
 )
+RULE += (
+    ' Reference cycles may also close inside a literal keyword (default / const / enum): the loader resolves $ref wherever it stands.'
+)
 ASSUMPTIONS = [
     "position enumerator vlib.schemas.walk mirrors the positions statham interprets as schemas (literals are not positions)",
     "pure-alias $ref loops are not generated (json_ref_dict rejects them itself)",
@@ -103,7 +106,18 @@ def wrap(kind, inner):
         return {kind: [{"type": "string"}, inner]}
     if kind == "not":
         return {"not": inner}
+    # the loader resolves references wherever they stand, also inside literal keywords: a cycle closed there is
+    # still a recursive document
+    if kind == "default-literal":
+        return {"default": {"self": inner}}
+    if kind == "const-literal":
+        return {"const": [inner]}
+    if kind == "enum-literal":
+        return {"enum": [1, {"x": [inner]}]}
     raise ValueError(kind)
+
+
+LITERAL_WRAPPERS = ["default-literal", "const-literal", "enum-literal"]
 
 
 @st.composite
@@ -113,6 +127,8 @@ def cycles(draw):
     for i in range(n):
         target = f"#/definitions/n{(i + 1) % n}"
         edge = {"$ref": target}
+        if draw(st.integers(0, 5)) == 0:
+            edge = wrap(draw(st.sampled_from(LITERAL_WRAPPERS)), edge)
         for kind in draw(st.lists(st.sampled_from(WRAPPERS), min_size=0, max_size=2)):
             edge = wrap(kind, edge)
         node = {"type": "object", "properties": {"next": edge, "v": {"type": "integer"}}}
@@ -122,6 +138,8 @@ def cycles(draw):
     style = draw(st.sampled_from(["root-refs", "root-is-node", "self"]))
     if style == "self" or (style == "root-is-node" and n == 1):
         edge = {"$ref": "#"}
+        if draw(st.integers(0, 3)) == 0:
+            edge = wrap(draw(st.sampled_from(LITERAL_WRAPPERS)), edge)
         for kind in draw(st.lists(st.sampled_from(WRAPPERS), min_size=0, max_size=2)):
             edge = wrap(kind, edge)
         doc = {"type": "object", "title": "Root", "properties": {"me": edge}}
